@@ -140,6 +140,14 @@ impl<'a> World<'a> {
                                         found.push(("fat-high-nibble".into(), opk.into(), format!("entry {}", c)));
                                     }
                                 }
+                                if allow.extend_only {
+                                    // a write appends to a chain: free -> used and end-of-chain -> link are its only business
+                                    let o = (p / eb) * eb;
+                                    let prev = if eb == 2 { u16::from_le_bytes([pre[o], pre[o + 1]]) as u32 } else { u32::from_le_bytes([pre[o], pre[o + 1], pre[o + 2], pre[o + 3]]) & 0x0FFF_FFFF };
+                                    if prev >= 2 && prev < g.clusters + 2 {
+                                        found.push(("fat-live-link-rewired".into(), opk.into(), format!("entry {} copy {} pointed to cluster {} before the write and was changed", c, copy, prev)));
+                                    }
+                                }
                                 if !allow.fat_clusters.contains(&c) && !self.was_free_before(eff, vi, c) {
                                     found.push(("fat-foreign-entry".into(), opk.into(), format!("entry {} copy {} not in the call's chains and not free before", c, copy)));
                                 }
@@ -230,7 +238,9 @@ impl<'a> World<'a> {
             let want = count0 as i64 + free_now as i64 - free0 as i64;
             // a stale count may have hit zero in between (the library saturates); then nothing exact can be demanded
             let lowest = count0 as i64 + v.min_free_since_mount as i64 - free0 as i64;
-            if want >= 0 && want < 0xFFFF_FFFF && lowest >= 0 {
+            // ... or the top (0xFFFFFFFF on the medium means "unknown")
+            let highest = count0 as i64 + v.max_free_since_mount as i64 - free0 as i64;
+            if want >= 0 && want < 0xFFFF_FFFF && lowest >= 0 && highest < 0xFFFF_FFFF {
                 if count as i64 != want {
                     found.push(("fsinfo-count", format!("{}:delta{}", opk, (count as i64 - want).clamp(-9, 9)), format!("stored {} expected {} (at mount {}, free then {}, free now {})", count, want, count0, free0, free_now)));
                 }
